@@ -1,6 +1,8 @@
 import ScVerif.C05.Drv
 import ScVerif.C06.Opts
 import ScVerif.C06.Heap
+import ScVerif.C06.Coll
+import ScVerif.C06.ValuePull
 /-! Driver handler for C06: the stateful handler shared with C05 (message-tree model; the C06
 operations there are `rvalidate`, `rfilter`, `project`), extended with the read-option operations:
 
@@ -17,7 +19,20 @@ operations there are `rvalidate`, `rfilter`, `project`), extended with the read-
       ResponseFilter.Filter / FilterClone on a container whose fields are the fields of the message <own>
       (owned), a repeated message field `<refs>` = `name:a+b+..` whose elements are the stored messages at
       those heap addresses and a singular message field `<ref>` = `name:a` (`-`: none); answer: what the
-      returned container shows and the heap afterwards. -/
+      returned container shows and the heap afterwards.
+
+  cread <ty> <opts> <mode> <eq> <n> (<id> <msg> <time>)*n (<id> <time> <TYPE> <old|nil> <new|nil> <0|1> <0|1>)*
+      a collection read with the option list over the store of n items (in any order) and, for the
+      subscriptions, the raw changes published afterwards (id, time, kind, old, new, seed, last-seed):
+      <mode> `list` -> panic | `-` | msg msg ...                       (Collection.List)
+             `pull` -> panic | `-` | id|time|TYPE|old|new|S.L. ...      (Collection.Pull: seeds then events)
+             `pullid=<id>` -> panic | `-` | time|msg|S.L. ...           (Collection.PullID)
+      <eq>: `-` no collection equivalence, `E` WithNoDuplicates (equal old and new values are dropped);
+      include callbacks `I<n>` are the closed family `namedPred`.
+
+  vpull <ty> <opts> <eq> <cur|nil> <time> (<time> <msg|nil>)*  -> panic | `-` | time|msg|S.L. ...
+      Value.Pull with the option list on a value holding <cur> (changed at <time>), then the raw
+      published changes. -/
 namespace ScVerif.C06
 open ScVerif.C05 ScVerif.C05.Codec
 
@@ -69,6 +84,87 @@ def hfilter (inplace : Bool) (mask : Option (List Path)) (own : Fields) (refs re
   let r := if inplace then filterInPlace mask h c else filterCloneH mask h c
   showMsg (resolve r.2 r.1) ++ " |" ++ String.join (r.2.map (fun m => " " ++ showMsg m))
 
+def parseChangeType : String → Option ChangeType
+  | "ADD" => some .add
+  | "UPDATE" => some .update
+  | "REMOVE" => some .remove
+  | "REPLACE" => some .replace
+  | "CHANGE_TYPE_UNSPECIFIED" => some .unspecified
+  | _ => none
+
+def showChangeType : ChangeType → String
+  | .add => "ADD"
+  | .update => "UPDATE"
+  | .remove => "REMOVE"
+  | .replace => "REPLACE"
+  | .unspecified => "CHANGE_TYPE_UNSPECIFIED"
+
+def parseOptMsg (s : String) : Option (Option Fields) :=
+  if s = "nil" then some none else (parseMessage s).map some
+
+def showOptMsg : Option Fields → String
+  | none => "nil"
+  | some fs => showMsg fs
+
+def showFlags (s l : Bool) : String := "S" ++ (if s then "1" else "0") ++ "L" ++ (if l then "1" else "0")
+
+def showChange (c : CollectionChange) : String :=
+  "|".intercalate [c.id, toString c.changeTime, showChangeType c.changeType, showOptMsg c.oldValue,
+    showOptMsg c.newValue, showFlags c.seedValue c.lastSeedValue]
+
+def showValueChange (v : ValueChange) : String :=
+  "|".intercalate [toString v.changeTime, showOptMsg v.value, showFlags v.seedValue v.lastSeedValue]
+
+def parseItems : Nat → List String → Option (Store × List String)
+  | 0, rest => some ([], rest)
+  | n + 1, id :: m :: t :: rest =>
+    match parseMessage m, t.toInt?, parseItems n rest with
+    | some fs, some t, some (st, rest) => some (⟨id, fs, t⟩ :: st, rest)
+    | _, _, _ => none
+  | _, _ => none
+
+def parseBit : String → Option Bool
+  | "0" => some false
+  | "1" => some true
+  | _ => none
+
+def parseChanges : List String → Option (List CollectionChange)
+  | [] => some []
+  | id :: t :: ty :: o :: n :: s :: l :: rest =>
+    match t.toInt?, parseChangeType ty, parseOptMsg o, parseOptMsg n, parseBit s, parseBit l, parseChanges rest with
+    | some t, some ty, some o, some n, some s, some l, some cs => some (⟨id, t, ty, o, n, s, l⟩ :: cs)
+    | _, _, _, _, _, _, _ => none
+  | _ => none
+
+def parseValueChanges : List String → Option (List ValueChange)
+  | [] => some []
+  | t :: m :: rest =>
+    match t.toInt?, parseOptMsg m, parseValueChanges rest with
+    | some t, some m, some vs => some (⟨m, t, false, false⟩ :: vs)
+    | _, _, _ => none
+  | _ => none
+
+def showList (xs : List String) : String := if xs.isEmpty then "-" else " ".intercalate xs
+
+def cread (S : Schema) (ty : Nat) (opts : List ReadOpt) (mode : String) (eq : Equiv) (st : Store)
+    (evs : List CollectionChange) : String :=
+  match computeReadConfig S ty opts with
+  | none => "panic"
+  | some rr =>
+    if mode = "list" then
+      match listWith namedPred rr st with
+      | some ms => showList (ms.map showMsg)
+      | none => "panic"
+    else if mode = "pull" then
+      match pullStream namedPred rr eq st evs with
+      | some cs => showList (cs.map showChange)
+      | none => "panic"
+    else if mode.startsWith "pullid=" then
+      match pullID namedPred rr eq st evs (mode.drop 7).toString with
+      | some vs => showList (vs.map showValueChange)
+      | none => "panic"
+    else "!bad-op"
+
 def handleS (S : Schema) (toks : List String) : Schema × String :=
   let bad := (S, "!bad-op")
   match toks with
@@ -78,6 +174,34 @@ def handleS (S : Schema) (toks : List String) : Schema × String :=
       if mode = "inplace" then (S, hfilter true m own refs ref h)
       else if mode = "clone" then (S, hfilter false m own refs ref h)
       else bad
+    | _, _, _, _, _ => bad
+  | "cread" :: ty :: o :: mode :: eq :: n :: rest =>
+    match ty.toNat?, parseOpts o, n.toNat? with
+    | some ty, some opts, some n =>
+      match parseItems n rest with
+      | some (st, rest) =>
+        match parseChanges rest with
+        | some evs =>
+          if eq = "-" then (S, cread S ty opts mode none st evs)
+          else if eq = "E" then (S, cread S ty opts mode (some (fun a b => a == b)) st evs)
+          else bad
+        | none => bad
+      | none => bad
+    | _, _, _ => bad
+  | "vpull" :: ty :: o :: eq :: cur :: t :: rest =>
+    match ty.toNat?, parseOpts o, parseOptMsg cur, t.toInt?, parseValueChanges rest with
+    | some ty, some opts, some cur, some t, some evs =>
+      match computeReadConfig S ty opts with
+      | none => (S, "panic")
+      | some rr =>
+        let e : Option Equiv :=
+          if eq = "-" then some none else if eq = "E" then some (some (fun a b => a == b)) else none
+        match e with
+        | none => bad
+        | some e =>
+          match valuePull rr e (cur.map (fun v => (v, t))) evs with
+          | some vs => (S, showList (vs.map showValueChange))
+          | none => (S, "panic")
     | _, _, _, _, _ => bad
   | ["rconfig", ty, o] =>
     match ty.toNat?, parseOpts o with
